@@ -58,6 +58,13 @@ var initCmd = &cobra.Command{
 var newCmd = &cobra.Command{
 	Use:   "new",
 	Short: "Create a new task or epic",
+	// Without a RunE cobra answers a misspelt sub-command (`ergo new taks`)
+	// with the help text on stdout and exit 0: nothing was created and
+	// nothing said so. Make it the failure it is.
+	Args: cobra.ArbitraryArgs,
+	RunE: func(cmd *cobra.Command, args []string) error {
+		return ergo.RunNewGroup(cmd.CommandPath(), args)
+	},
 }
 
 var newTaskCmd = &cobra.Command{
